@@ -42,7 +42,7 @@ NWT = TObj(NpuWeightTensor)
 REGISTRY.declare_class(
     NpuWeightTensor, buffer=TList(PyInt), double_buffer_sizes=TList(PyInt), encoded_ranges=TMap(WR),
     # ghost: g_span[idx] = encoded bytes of depth slice idx (all cores); g_prev_end = end of the most recently recorded range
-    g_span=TMap(PyInt), g_prev_end=PyInt, hw_traversal=TEnum(NpuBlockTraversal),
+    g_span=TMap(PyInt), g_prev_end=PyInt, g_slice_start=PyInt, hw_traversal=TEnum(NpuBlockTraversal),
 )
 
 
@@ -104,15 +104,15 @@ def _opaque_model(eng, args, kwargs):
 _EWST = wc.encode_weight_and_scale_tensor
 
 contract(
-    "ethosu.vela.weight_compressor:encode_weight_and_scale_tensor", props=["C08"],
+    "ethosu.vela.weight_compressor:encode_weight_and_scale_tensor", props=["C08", "C02"],
     # Suffix slice from `encoded_stream = bytearray()`: the prefix (cache lookup, zero-point correction, traversal choice: numpy / object
     # graph code) only establishes the locals declared here as ghost parameters (do_weights, do_scales, npu_tensor, weights, ...);
     # the suffix is verified for an ARBITRARY such state. Dropped in the suffix: tensor bookkeeping after the loops.
-    variants={"ncores=%d" % nc: dict(
+    variants={"ncores=%d,do_weights=%s" % (nc, dw): dict(
         arch=arch_w(nc), op=TOpaque("op"), weight_tens=WEIGHT_TENS, scale_tens=TOpaque("scale_tens"), kernel=TOpaque("kernel"),
         block_config=BLOCK_CFG, depth_offsets=TList(PyInt),
-        do_weights=PyBool, do_scales=PyBool, npu_tensor=NWT, weights=TOpaque("ndarray"), npu_block_type=TEnum(NpuBlockType),
-        ifm_bitdepth=PyInt) for nc in (1, 2)},
+        do_weights=TConst(dw), do_scales=TConst(True), npu_tensor=NWT, weights=TOpaque("ndarray"), npu_block_type=TEnum(NpuBlockType),
+        ifm_bitdepth=PyInt) for nc in (1, 2) for dw in (True, False)},   # do_scales is True on every path of the prefix
     slice_drop=drop_any(
         drop_before(_EWST, "encoded_stream = bytearray()"),
         drop_matching(_EWST, "scale_tens.element_size_bytes", "npu_tensor.set_all_shapes", "npu_tensor.format", "if not do_weights:",
@@ -126,9 +126,11 @@ contract(
     requires=[
         # closed, strictly increasing depth ranges inside the OFM depth, ending at it (the two call sites: [0, depth] and
         # propose_weight_buffering's slice boundaries)
-        "len(depth_offsets) >= 2", "depth_offsets[0] >= 0",
+        "len(depth_offsets) >= 2", "all(depth_offsets[i] >= 0 for i in range(len(depth_offsets)))",
         "all(depth_offsets[i] < depth_offsets[i + 1] for i in range(len(depth_offsets) - 1))",
         "all(depth_offsets[i] <= weight_tens.values.shape[3] for i in range(len(depth_offsets)))",
+        "depth_offsets[len(depth_offsets) - 1] == weight_tens.values.shape[3]",      # 'terminated at end of OFM shape'
+
         # every slice boundary except the last is a multiple of the core count (derived from the call sites; see DESIGN 3/C08)
         "all((depth_offsets[i + 1] - depth_offsets[i]) % arch.ncores == 0 for i in range(len(depth_offsets) - 2))",
         "npu_tensor.g_prev_end == 0",
@@ -139,10 +141,10 @@ contract(
             "0 <= npu_tensor.g_prev_end <= len(encoded_stream)",
             # every finished slice fits the buffer of its parity
             "all(npu_tensor.g_span.get(i) is not None and double_buffer_sizes[i % 2] >= npu_tensor.g_span.get(i) for i in range(_it0))",
-        ], modifies_fields=["g_span", "g_prev_end", "encoded_ranges", "map$Obj_WeightRange_", "map$PyInt", "offset", "scale_bytes", "weight_offset", "weight_bytes", "index"],
+        ], modifies_fields=["g_span", "g_prev_end", "g_slice_start", "encoded_ranges", "map$Obj_WeightRange_", "map$PyInt", "offset", "scale_bytes", "weight_offset", "weight_bytes", "index"],
             havoc_types={"encoded_stream": TList(PyInt)}),
         1: dict(invariants=[
-            "len(encoded_stream) % 16 == 0", "weight_range_index >= 0", "buffer_start_offset <= len(encoded_stream)",
+            "len(encoded_stream) % 16 == 0", "weight_range_index >= 0", "npu_tensor.g_slice_start <= len(encoded_stream)",
             "0 <= npu_tensor.g_prev_end <= len(encoded_stream)",
         ], modifies_fields=["g_prev_end", "encoded_ranges", "map$Obj_WeightRange_", "offset", "scale_bytes", "weight_offset", "weight_bytes", "index"],
             havoc_types={"encoded_stream": TList(PyInt)}),
@@ -165,9 +167,11 @@ contract(
     },
     ghost={
         "after:npu_tensor.encoded_ranges[key] = weight_range": ["npu_tensor.g_prev_end = len(encoded_stream)"],
-        "after:double_buffer_sizes[idx % 2] = max(": ["npu_tensor.g_span[idx] = len(encoded_stream) - buffer_start_offset"],
+        "after:double_buffer_sizes[idx % 2] = max(": ["npu_tensor.g_span[idx] = len(encoded_stream) - npu_tensor.g_slice_start"],
+        # ghost: where the bytes of the current depth slice begin
+        "after:depth_length = depth_offsets[idx + 1] - depth_offset": ["npu_tensor.g_slice_start = len(encoded_stream)"],
     },
-    ghost_fields=["g_span", "g_prev_end"],
+    ghost_fields=["g_span", "g_prev_end", "g_slice_start"],
     ensures=[
         "len(npu_tensor.buffer) % 16 == 0",
         # the recorded double-buffer sizes bound every slice that will occupy that buffer
@@ -175,7 +179,7 @@ contract(
         "all(npu_tensor.g_span.get(i) is not None and npu_tensor.double_buffer_sizes[i % 2] >= npu_tensor.g_span.get(i)"
         " for i in range(len(depth_offsets) - 1))",
     ],
-    modifies=["buffer", "double_buffer_sizes", "encoded_ranges", "map$Obj_WeightRange_", "g_span", "g_prev_end", "offset", "scale_bytes", "weight_offset", "weight_bytes", "index"],
+    modifies=["buffer", "double_buffer_sizes", "encoded_ranges", "map$Obj_WeightRange_", "g_span", "g_prev_end", "g_slice_start", "offset", "scale_bytes", "weight_offset", "weight_bytes", "index"],
     replay=False, allocates=True,
     assumptions=["_prepare_scale_and_bias returns one (scale, shift) and one bias per output channel, in encode_bias' ranges (assumed)",
                  "encode_weights returns a byte string whose length is a multiple of 16 (C07's claim, assumed)",
